@@ -499,6 +499,20 @@ Fixpoint is_prefix (a b : bytes) : bool :=
 Definition is_complex (n : bytes) : bool := bytes_eqb n (tx "LAMBDA") || is_prefix (tx "IF") n.
 Definition is_inline (n : bytes) : bool := bytes_eqb n (tx "PUSH").
 
+(* the loop over several arguments: each one goes on the current line if it fits (always for PUSH and
+   in inline mode), otherwise on a new line; [f a k] formats argument a with indentation k *)
+Definition multi_loop (f : pnode -> nat -> list piece) (always : bool) (indent alt_indent : nat) :=
+  fix loop (l : list pnode) (expr : list piece) (ai : nat) {struct l} : list piece :=
+    match l with
+    | [] => expr
+    | a :: r =>
+        let item := f a ai in
+        let len := indent + plen expr + plen item + 1 in
+        if always || (len <? line_size)
+        then loop r (expr ++ sp :: item) alt_indent
+        else loop r (expr ++ nl_indent ai ++ item) ai
+    end.
+
 Fixpoint fmtx (inline : bool) (p : pnode) (indent : nat) (wrapped : bool) {struct p} : list piece :=
   match p with
   | PInt r => [PT (TInt r)]
@@ -530,16 +544,7 @@ Fixpoint fmtx (inline : bool) (p : pnode) (indent : nat) (wrapped : bool) {struc
           | [a] => head ++ sp :: fmtx inline a (indent + (plen head + 1)) false
           | _ =>
               let alt_indent := indent + (plen head + 2) in
-              (fix loop (l : list pnode) (expr : list piece) (ai : nat) {struct l} : list piece :=
-                 match l with
-                 | [] => expr
-                 | a :: r =>
-                     let item := fmtx inline a ai false in
-                     let len := indent + plen expr + plen item + 1 in
-                     if inline || is_inline n || (len <? line_size)
-                     then loop r (expr ++ sp :: item) alt_indent
-                     else loop r (expr ++ nl_indent ai ++ item) ai
-                 end) args head (indent + 2)
+              multi_loop (fun a k => fmtx inline a k false) (inline || is_inline n) indent alt_indent args head (indent + 2)
           end in
       if is_framed n (nonempty annots) && negb wrapped then PT TLParen :: body ++ [PT TRParen] else body
   end.
